@@ -128,9 +128,9 @@ func runSeq(ctx *engine.Ctx, unit string, sc seqCase) {
 }
 
 func cacheSeq(ctx *engine.Ctx) {
-	depth := 6
+	depth := 7
 	if ctx.Tier == "thorough" {
-		depth = 7
+		depth = 8
 	}
 	const alpha = 10
 	total := int64(1)
